@@ -91,6 +91,9 @@ func (g *G) Stmt(depth int, ind string) string {
 	}
 	inLoop := g.cur().loopDepth > 0
 	inFn := g.cur().inFn
+	if g.o.CaptureLoopVars && inFn && g.r.Intn(5) == 0 {
+		return g.loopCapture()
+	}
 	if g.o.ControlHeavy && g.r.Intn(4) == 0 {
 		if inLoop && g.r.Intn(2) == 0 {
 			g.f("branch")
@@ -454,4 +457,27 @@ func Generate(g *G) Program {
 		sb.WriteString("export " + g.Expr(g.o.ExportType, 2) + "\n")
 	}
 	return Program{Src: sb.String(), TopVars: g.top, Features: g.feat}
+}
+
+// loopCapture: closures that capture loop-scoped variables and are called after the loop (how many
+// variables they share depends on where the loop stands), and a loop whose variables take over the
+// stack slot of a captured variable of a finished block.
+func (g *G) loopCapture() string {
+	g.f("loop-capture")
+	fs, w, k, v, i := g.fresh("fs"), g.fresh("w"), g.fresh("k"), g.fresh("e"), g.fresh("i")
+	g.declare(w, TArr, false)
+	call := w + " := []; for " + i + " := 0; " + i + " < len(" + fs + "); " + i + "++ { " + w + " = append(" + w + ", " + fs + "[" + i + "]()) }"
+	arr := pick(g.r, []string{"[7, 8, 9]", "[[1], [2]]", "immutable([3, 4])", "\"ab\"", "bytes(\"xy\")", "[5]"})
+	switch g.r.Intn(4) {
+	case 0:
+		return fs + " := []; for " + k + ", " + v + " in " + arr + " { " + fs + " = append(" + fs + ", func() { return [" + k + ", " + v + "] }) }; " + call
+	case 1:
+		t := g.fresh("t")
+		return fs + " := []; for " + v + " in " + arr + " { " + t + " := [" + v + "]; " + fs + " = append(" + fs + ", func() { " + t + " = append(" + t + ", 0); return len(" + t + ") }) }; " + call
+	case 2:
+		return fs + " := []; for " + i + "x := 0; " + i + "x < 3; " + i + "x++ { " + v + " := " + i + "x * 10; " + fs + " = append(" + fs + ", func() { " + v + " += 1; return [" + i + "x, " + v + "] }) }; " + call
+	default:
+		x := g.fresh("x")
+		return fs + " := []; if true { " + x + " := 10; " + fs + " = append(" + fs + ", func() { " + x + " += 1; return " + x + " }) }; for " + k + ", " + v + " in " + arr + " { " + k + " = " + k + " }; " + call
+	}
 }
